@@ -247,7 +247,7 @@ def substitute_terminals(tree, **params):
                 print("sentence length %d, cannot insert at %d" \
                       % (len(trees.terminals(tree)),
                          terminal_num))
-                continue
+            continue
         terminal = terminals[terminal_num - 1]
         new_word = substitute_terminals.\
                    terminals[tree.data['sid']][terminal_num][0]
